@@ -52,6 +52,7 @@ type Case struct {
 	Latest  string   `json:"latest,omitempty"` // verify mode: round of the latest block
 	ASeed   uint64   `json:"aseed,omitempty"`  // app mode: seed of the history
 	Blocks  int      `json:"blocks,omitempty"` // app mode: number of consensus blocks
+	Ev      *EvDesc  `json:"ev,omitempty"`     // evidence mode
 	Tag     string   `json:"tag"`
 	Members []Member `json:"m"`
 	Ops     []Op     `json:"ops"`
@@ -740,7 +741,7 @@ func main() {
 		}
 		replayCase = &c
 		switch c.Mode {
-		case "verify", "app":
+		case "verify", "app", "evidence":
 			*mode = c.Mode
 		default:
 			*mode = "pool"
@@ -753,8 +754,12 @@ func main() {
 		w = coqout.NewWriter(*out, hdr, "run_vcase", "case_eqb", 400)
 	}
 	if *mode == "app" {
-		hdr = "From Verif Require Import Lib.Base Roothash.Pool Roothash.Verify Roothash.App.\n"
-		w = coqout.NewWriter(*out, hdr, "run_acase", "acase_eqb", 8)
+		hdr = "From Verif Require Import Lib.Base Roothash.Pool Roothash.Verify Roothash.App Roothash.Evidence.\n"
+		w = coqout.NewWriter(*out, hdr, "run_ecase", "ecase_eqb", 8)
+	}
+	if *mode == "evidence" {
+		hdr = "From Verif Require Import Lib.Base Roothash.Pool Roothash.Verify Roothash.App Roothash.Evidence.\n"
+		w = coqout.NewWriter(*out, hdr, "evidence_code", "N.eqb", 1000)
 	}
 	sum := coqout.NewSummary("(1) exhaustive: all sequences of <= exh-len commitments over (members + one non-member) x (every worker as scheduler) x {agree, dissent A, dissent B, failure} for every committee with primary 1..exh-np, backup 0..exh-nb and every overlap, with ProcessCommitments probed on a copy of the pool after every prefix for stragglers 0..2 with and without timeout and one seeded state-changing call; (2) seeded structured rounds on committees 1..3 + 0..3 and 3..12 + 0..12 (scheduler proposes, members vote in a random order, 0/10/35% dissent, 0/10/30% failures, duplicates, non-members, other schedulers, 12% malformed: shuffled or invalid roles, duplicate members, mixed rounds, rounds near 2^64). non-trivial = some process call returned something other than still-waiting / no-scheduler-commitment; distinct = distinct case descriptions")
 	seen := map[string]bool{}
@@ -821,7 +826,31 @@ func main() {
 			sum.Violations = append(sum.Violations, map[string]any{"what": res.violated, "case": c})
 		}
 	}
-	if replayCase != nil && replayCase.Mode == "app" {
+	handleEv := func(c Case) {
+		term, stat, violated := runEvidenceCase(c)
+		sum.Evaluations++
+		key, _ := json.Marshal(c)
+		if !seen[string(key)] {
+			sum.DistinctNontrivial++
+		}
+		seen[string(key)] = true
+		sum.Count("evidence", stat)
+		sum.Sample(c, 3)
+		w.Add(term, map[string]any{"case": c})
+		if violated != "" && nviol < 5 {
+			nviol++
+			sum.Violations = append(sum.Violations, map[string]any{"what": violated, "case": c})
+		}
+	}
+	if replayCase != nil && replayCase.Mode == "evidence" {
+		handleEv(*replayCase)
+	} else if *mode == "evidence" {
+		sum.Rule = "stateless Evidence.ValidateBasic on signed pairs: executor commitments (same commitment twice, other node / scheduler / round, failure vs result, two failure codes, same failure on different parents, bad / foreign signature, messages attached, missing fields, invalid failure code, differing only in previous hash / messages hash / a field the check ignores) and batch proposals (equal, other node / round, other parent, batch or batch signature attached, bad / foreign signature), both or no field set; distinct = distinct descriptions (every case counts as non-trivial)"
+		r := prng.New(*seed ^ 0xe71d)
+		for i := 0; i < *n; i++ {
+			handleEv(genEvidenceCase(r.Fork()))
+		}
+	} else if replayCase != nil && replayCase.Mode == "app" {
 		handleApp(*replayCase)
 	} else if *mode == "app" {
 		sum.Rule = "histories of the real roothash application behind the real ABCI multiplexer: one validator, one non-TEE compute runtime (group 1..3, backup 0..2, round timeout 0/1/2/3/5 blocks, stragglers 0/1), epoch interval 3..5 blocks, compute-node registrations expiring after 2..4 epochs (suspension, also while a round timeout is armed) and re-registration; per block a seeded choice of signed ExecutorCommit transactions (scheduler only, all agree, conflicting, failure-indicating, early backup votes, backup resolution with agreeing / split / failing votes, rank-1 scheduler rounds, wrong round / future round of rank 0 / wrong parent / non-member / other scheduler) or nothing (timeouts run out). One case = one history; non-trivial = a discrepancy was detected or a Normal / RoundFailed block was emitted"
